@@ -676,10 +676,13 @@ func (s *Service) serve(nc Conn) error {
 	for i := 0; i < s.workerCount; i++ {
 		go s.startWorker()
 	}
+	vhook("sv.init")
 
 	atomic.StoreInt32(&s.state, stateStarted)
+	vhook("sv.started")
 
 	err = s.subscribe()
+	vhook("sv.subscribed", err)
 	if err != nil {
 		s.errorf("Failed to subscribe: %s", err)
 		go s.Shutdown()
@@ -693,6 +696,7 @@ func (s *Service) serve(nc Conn) error {
 
 		s.infof("Listening for requests")
 		s.startListener(inCh)
+		vhook("sv.listenend")
 	}
 
 	// Stop all workers by closing worker channel
@@ -700,26 +704,32 @@ func (s *Service) serve(nc Conn) error {
 
 	// Wait for all workers to be done
 	s.wg.Wait()
+	vhook("sv.waited")
 	return nil
 }
 
 // Shutdown closes any existing connection to NATS Server.
 // Returns an error if service is not started.
 func (s *Service) Shutdown() error {
+	vhook("sd.enter")
 	if !atomic.CompareAndSwapInt32(&s.state, stateStarted, stateStopping) {
 		return errNotStarted
 	}
+	vhook("sd.cas")
 
 	s.infof("Stopping service...")
 	s.close()
 
 	// Wait for all workers to be done
 	s.wg.Wait()
+	vhook("sd.waited")
 
 	s.inCh = nil
 	s.nc = nil
+	vhook("sd.cleared")
 
 	atomic.StoreInt32(&s.state, stateStopped)
+	vhook("sd.stopped")
 
 	s.infof("Stopped")
 	return nil
@@ -727,13 +737,19 @@ func (s *Service) Shutdown() error {
 
 // close calls Close on the NATS connection, and closes the incoming channel
 func (s *Service) close() {
+	vhook("cl.enter")
 	s.mu.Lock()
 	s.workqueue = nil
+	vhook("cl.nil")
 	s.mu.Unlock()
+	vhook("cl.unlocked")
 	s.workcond.Broadcast()
+	vhook("cl.bcast")
 
 	s.nc.Close()
+	vhook("cl.connclosed")
 	close(s.inCh)
+	vhook("cl.inchclosed")
 }
 
 // Reset sends a system reset for the provided resource patterns.
@@ -742,6 +758,7 @@ func (s *Service) Reset(resources []string, access []string) {
 		s.errorf("Failed to reset: service not started")
 		return
 	}
+	vhook("api.checked", "Reset")
 
 	s.reset(resources, access)
 }
@@ -778,6 +795,7 @@ func (s *Service) ResetAll() {
 		s.errorf("Failed to reset: service not started")
 		return
 	}
+	vhook("api.checked", "ResetAll")
 
 	s.setDefaultOwnership()
 
@@ -800,6 +818,7 @@ func (s *Service) TokenEvent(cid string, token interface{}) {
 	if !isValidPart(cid) {
 		panic(`res: invalid connection ID`)
 	}
+	vhook("api.checked", "TokenEvent")
 	s.event("conn."+cid+".token", tokenEvent{Token: token})
 }
 
@@ -817,6 +836,7 @@ func (s *Service) TokenEventWithID(cid string, tokenID string, token interface{}
 	if !isValidPart(cid) {
 		panic(`res: invalid connection ID`)
 	}
+	vhook("api.checked", "TokenEventWithID")
 	s.event("conn."+cid+".token", tokenEvent{Token: token, TID: tokenID})
 }
 
@@ -837,6 +857,7 @@ func (s *Service) TokenReset(subject string, tokenID ...string) {
 	if len(tokenID) == 0 {
 		return
 	}
+	vhook("api.checked", "TokenReset")
 	s.event("system.tokenReset", tokenResetEvent{
 		TIDs:    tokenID,
 		Subject: subject,
@@ -928,6 +949,7 @@ func (s *Service) startListener(ch chan *nats.Msg) {
 // handleRequest is called by the nats listener on incoming messages.
 func (s *Service) handleRequest(m *nats.Msg) {
 	subj := m.Subject
+	vhook("hr.recv", subj, m.Reply)
 	s.tracef("==> %s: %s", subj, m.Data)
 
 	// Assert there is a reply subject
@@ -967,15 +989,19 @@ func (s *Service) handleRequest(m *nats.Msg) {
 
 	s.runWith(group, func() {
 		s.processRequest(m, rtype, rname, method, mh)
+		vhook("rq.done", m.Subject, m.Reply)
 	})
 }
 
 // runWith enqueues the callback, cb, to be called by the worker goroutine
 // defined by the worker ID (wid).
 func (s *Service) runWith(wid string, cb func()) {
+	vhook("rw.enter", wid)
 	if atomic.LoadInt32(&s.state) != stateStarted {
+		vhook("rw.refused", wid)
 		return
 	}
+	vhook("rw.checked", wid)
 
 	s.mu.Lock()
 	// Get current work queue for the resource
@@ -996,12 +1022,17 @@ func (s *Service) runWith(wid string, cb func()) {
 			s.rwork[wid] = w
 		}
 		s.workqueue = append(s.workqueue, w)
+		vhook("rw.enq", wid, true, len(w.queue), len(s.workqueue))
 		s.mu.Unlock()
+		vhook("rw.unlocked", wid)
 		s.workcond.Signal()
+		vhook("rw.signaled", wid)
 	} else {
 		// Append callback to existing work queue
 		w.queue = append(w.queue, cb)
+		vhook("rw.enq", wid, false, len(w.queue), len(s.workqueue))
 		s.mu.Unlock()
+		vhook("rw.appended", wid)
 	}
 }
 
@@ -1069,6 +1100,7 @@ func (s *Service) event(subj string, data interface{}) {
 
 	payload, err := json.Marshal(data)
 	if err == nil {
+		vhook("ev.pub", subj)
 		s.tracef("<-- %s: %s", subj, payload)
 		err = s.nc.Publish(subj, payload)
 	}
@@ -1080,6 +1112,7 @@ func (s *Service) event(subj string, data interface{}) {
 // rawEvent publishes the payload on a subject, and logs it as an outgoing
 // event.
 func (s *Service) rawEvent(subj string, payload []byte) {
+	vhook("ev.pub", subj)
 	s.tracef("<-- %s: %s", subj, payload)
 	err := s.nc.Publish(subj, payload)
 	if err != nil {
@@ -1180,7 +1213,9 @@ func (s *Service) processRequest(m *nats.Msg, rtype, rname, method string, mh *M
 
 func (s *Service) queryEventExpire(v interface{}) {
 	qe := v.(*queryEvent)
+	vhook("qx.enter", qe.r.rname)
 	qe.sub.Drain()
+	vhook("qx.drained", qe.r.rname)
 	s.runWith(qe.r.Group(), func() {
 		qe.cb(nil)
 	})
